@@ -6,6 +6,7 @@ import Csproto.Bridge.DecoderFuncs
 import Csproto.Bridge.EncoderFuncs
 import Csproto.Bridge.PackedEncFuncs
 import Csproto.Props.C01Source
+import Csproto.Props.C01SourcePacked
 /- axiom audit for C01: parsed by ./check; every line must list only propext / Classical.choice / Quot.sound -/
 open Csproto
 #print axioms C01.sizeOfVarint_exact
@@ -97,3 +98,4 @@ open Csproto
 #print axioms Csproto.Bridge.PackedEncFuncs.EncodePackedUInt32_refines
 #print axioms Csproto.Bridge.PackedEncFuncs.EncodePackedSInt64_refines
 #print axioms Csproto.Bridge.PackedEncFuncs.EncodePackedSInt32_refines
+#print axioms Csproto.C01.Source.source_roundtrip_packed_uint64
